@@ -158,7 +158,14 @@ def mismatch(case):
     odd = fedjax.ClientDataset(dss[p].raw_examples, other)
   else:
     raw = dict(dss[p].raw_examples)
-    raw['extra'] = raw['i'].copy()
+    if kind == 'feat':
+      raw['extra'] = raw['i'].copy()
+    elif kind == 'feat_renamed':     # same NUMBER of features, one under another name
+      raw['g'] = raw.pop('f')
+    elif kind == 'feat_missing':     # a strict subset of the others' features
+      del raw['f']
+    elif kind == 'feat_case':        # names that only differ in case / are prefixes of each other
+      raw['F'] = raw.pop('f')
     odd = fedjax.ClientDataset(raw, pre)
   if p == 0:
     dss = [odd] + dss[1:]
@@ -513,7 +520,7 @@ def plan(ctx):
   mm = []
   for sizes in size_seqs([0, 1, 3], 3, 2):
     for p in range(len(sizes)):
-      for kind in ('pre', 'feat'):
+      for kind in ('pre', 'feat', 'feat_renamed', 'feat_missing', 'feat_case'):
         for fn in ('padded', 'shuffle'):
           mm.append({'sizes': sizes, 'pos': p, 'kind': kind, 'fn': fn, 'B': 2})
   ctx.run('mismatch', mm)
